@@ -28,7 +28,7 @@ Base == [conns |-> <<>>, streams |-> <<>>, spans |-> <<>>, peers |-> {}, protos 
          eps |-> {"n0"}, epip |-> [e \in {"n0"} |-> FALSE], epb |-> [e \in {"n0"} |-> {}], cap |-> NoBuckets,
          allownet |-> {}, allowpeer |-> {}, lim |-> [x \in {"conn", "stream"} |-> Open], deflim |-> Open,
          sizes |-> {1}, prios |-> {255}, dirs |-> {"in"}, fds |-> {FALSE}, views |-> {}, kinds |-> AllKinds,
-         threads |-> <<"t1">>, preload |-> <<>>]
+         threads |-> <<"t1">>, preload |-> <<>>, retry |-> FALSE]
 
 \* ---- memory / spans / priorities -------------------------------------------------------------
 \* Thr(4,127)=2 Thr(3,127)=1 Thr(2,127)=1: a reservation can be refused by its own scope, by the peer,
@@ -84,14 +84,14 @@ FamAllow == [Base EXCEPT
           ("asys" :> LR(INF, 9, 9, 9, 2, 1, 2, 9)) @@ ("atrans" :> LR(INF, 9, 9, 9, 1, 1, 1, 9)) @@
           ("peer:p1" :> LR(INF, 9, 9, 9, 2, 2, 2, 9)) @@ ("conn" :> Open) @@ ("stream" :> Open),
   !.dirs = {"in", "out"},
-  !.kinds = {"openconn", "setpeer", "done", "gc"}]
+  !.kinds = {"openconn", "setpeer", "done", "gc"}, !.retry = TRUE]
 \* connections that also hold memory (ReserveForChild moves the whole stat)
 FamConnMem == [Base EXCEPT
   !.conns = <<"c1", "c2">>, !.peers = {"p1"},
   !.lim = ("sys" :> LR(2, 9, 9, 9, 2, 2, 2, 2)) @@ ("trans" :> LR(2, 9, 9, 9, 2, 2, 2, 2)) @@
           ("peer:p1" :> LR(1, 9, 9, 9, 1, 1, 1, 1)) @@ ("conn" :> LR(1, 9, 9, 9, 1, 1, 1, 1)) @@ ("stream" :> Open),
   !.dirs = {"in", "out"}, !.fds = {TRUE},
-  !.kinds = {"openconn", "setpeer", "reserve", "release", "done", "gc"}]
+  !.kinds = {"openconn", "setpeer", "reserve", "release", "done", "gc"}, !.retry = TRUE]
 
 \* ---- streams / protocol / service / per-peer sub-scopes ------------------------------------------
 FamStream == [Base EXCEPT
@@ -110,7 +110,7 @@ FamStreamMem == [Base EXCEPT
           ("peer:p1" :> LR(2, 9, 9, 9, 9, 9, 9, 9)) @@ ("proto:a" :> LR(2, 9, 9, 9, 9, 9, 9, 9)) @@
           ("proto:a.peer" :> LR(1, 9, 9, 9, 9, 9, 9, 9)) @@ ("svc:x" :> LR(1, 9, 9, 9, 9, 9, 9, 9)) @@
           ("svc:x.peer" :> LR(1, 9, 9, 9, 9, 9, 9, 9)) @@ ("conn" :> Open) @@ ("stream" :> LR(2, 9, 9, 9, 9, 9, 9, 9)),
-  !.kinds = {"openstream", "setprotocol", "setservice", "reserve", "release", "done", "gc"}]
+  !.kinds = {"openstream", "setprotocol", "setservice", "reserve", "release", "done", "gc"}, !.retry = TRUE]
 
 \* ---- regression instance for DESIGN 9.4 (fixed by 8b34800): GC at any moment while View scopes hold
 \* reservations and spans; every invariant must hold
@@ -129,8 +129,19 @@ FamAlSub == [Base EXCEPT
   !.lim = ("sys" :> LR(INF, 9, 9, 9, 1, 1, 1, 9)) @@ ("asys" :> LR(INF, 9, 9, 9, 2, 2, 2, 9)) @@
           ("conn" :> Open) @@ ("stream" :> Open),
   !.kinds = {"openconn", "done"}]
-FamXfer == [FamAlSub EXCEPT !.conns = <<"c1", "c2">>, !.peers = {"p1", "p2"}, !.cap = ("b1/32" :> 2),
-                            !.kinds = {"openconn", "setpeer", "done"}]
+\* b1 is allow-listed for p1 only.  A connection from b1 admitted through the allow-listed scopes (standard
+\* transient full) is attached to p2: transferAllowedToStandard can be refused by system or by transient
+\* (the open finding) or succeed and then be refused by p2's own limit; room appears when another holder
+\* leaves; every SetPeer is retried after every refusal, with the same or the other peer (RetryGhost)
+FamXfer3 == [FamAlSub EXCEPT
+  !.conns = <<"c1", "c2", "c3">>, !.peers = {"p1", "p2"}, !.cap = ("b1/32" :> 3),
+  !.lim = ("sys" :> LR(INF, 9, 9, 9, 9, 9, 2, 9)) @@ ("trans" :> LR(INF, 9, 9, 9, 9, 9, 1, 9)) @@
+          ("asys" :> LR(INF, 9, 9, 9, 9, 9, 2, 9)) @@ ("atrans" :> LR(INF, 9, 9, 9, 9, 9, 1, 9)) @@
+          ("peer:p1" :> LR(INF, 9, 9, 9, 9, 9, 2, 9)) @@ ("peer:p2" :> LR(INF, 9, 9, 9, 9, 9, 1, 9)) @@
+          ("conn" :> Open) @@ ("stream" :> Open),
+  !.kinds = {"openconn", "setpeer", "done"}, !.retry = TRUE]
+\* the quick relative: two connections (the transfer is refused by transient or succeeds and p2 refuses)
+FamXfer == [FamXfer3 EXCEPT !.conns = <<"c1", "c2">>]
 
 \* ---- concurrent per-step instances (TLC only) -----------------------------------------------------
 FamCMem == [Base EXCEPT
@@ -150,11 +161,11 @@ FamCStream == [FamStream EXCEPT
   !.threads = <<"t1", "t2">>]
 
 \* smaller relatives for the quick tier
-FamConnQ == [FamConn EXCEPT !.conns = <<"c1", "c2">>]
-FamStreamQ == [FamStream EXCEPT !.dirs = {"in"}]
+FamConnQ == [FamConn EXCEPT !.conns = <<"c1", "c2">>, !.retry = TRUE]
+FamStreamQ == [FamStream EXCEPT !.dirs = {"in"}, !.retry = TRUE]
 FamSpanQ == [FamSpan EXCEPT !.spans = <<"sp1", "sp2">>]
 FamSubnetQ == [FamSubnet EXCEPT !.eps = {"a1", "a2", "v6", "n0"}, !.kinds = {"openconn", "done"}]
-FamAllowQ == [FamAllow EXCEPT !.dirs = {"in"}]
+FamAllowQ == [FamAllow EXCEPT !.dirs = {"in"}, !.retry = TRUE]
 FamCMemQ == [FamCMem EXCEPT !.sizes = {1}, !.streams = <<>>, !.kinds = {"setpeer", "reserve", "release", "done"},
                             !.preload = <<OC("c1", "in", FALSE, "n0"), BS("sp1", "c1")>>]
 
@@ -163,7 +174,7 @@ Cfg == CASE Fam = "connq" -> FamConnQ [] Fam = "streamq" -> FamStreamQ [] Fam = 
          [] Fam = "mem" -> FamMem [] Fam = "memp" -> FamMemP [] Fam = "span" -> FamSpan
          [] Fam = "conn" -> FamConn [] Fam = "subnet" -> FamSubnet [] Fam = "allow" -> FamAllow [] Fam = "connmem" -> FamConnMem
          [] Fam = "stream" -> FamStream [] Fam = "streammem" -> FamStreamMem
-         [] Fam = "gcmem" -> FamGcMem [] Fam = "alsub" -> FamAlSub [] Fam = "xfer" -> FamXfer
+         [] Fam = "gcmem" -> FamGcMem [] Fam = "alsub" -> FamAlSub [] Fam = "xfer" -> FamXfer [] Fam = "xfer3" -> FamXfer3
          [] Fam = "cmem" -> FamCMem [] Fam = "cconn" -> FamCConn [] Fam = "cstream" -> FamCStream
 
 MCConns == Cfg.conns      MCStreams == Cfg.streams    MCSpans == Cfg.spans
@@ -172,7 +183,7 @@ MCEps == Cfg.eps          MCEpIP == Cfg.epip          MCEpBuckets == Cfg.epb
 MCCap == Cfg.cap          MCAllowNet == Cfg.allownet  MCAllowPeer == Cfg.allowpeer
 MCSizes == Cfg.sizes      MCPrios == Cfg.prios        MCDirs == Cfg.dirs
 MCFds == Cfg.fds          MCViews == Cfg.views        MCKinds == Cfg.kinds
-MCThreads == Cfg.threads  MCPreload == Cfg.preload
+MCThreads == Cfg.threads  MCPreload == Cfg.preload  MCRetryGhost == Cfg.retry
 MCSequential == Len(Cfg.threads) = 1
 \* every named scope of the instance has a limit: the family's own entry or the default; the per-peer
 \* sub-scopes of a protocol / service share one limit ("proto:a.peer"), as in the Limiter interface
@@ -192,7 +203,7 @@ Tup(u) == <<u.mem, u.si, u.so, u.ci, u.co, u.fd>>
 St == [use  |-> [x \in {y \in All : w.use[y] # Z} |-> Tup(w.use[x])],
        obj  |-> [o \in {y \in ObjIds : w.obj[y].st # "none"} |->
                     <<w.obj[o].st, w.obj[o].al, w.obj[o].peer, w.obj[o].proto, w.obj[o].svc, w.obj[o].edges, w.obj[o].owner,
-                      w.obj[o].dir, w.obj[o].fd, w.obj[o].ep, w.obj[o].ipv>>],
+                      w.obj[o].dir, w.obj[o].fd, w.obj[o].ep, w.obj[o].ipv, w.obj[o].rf>>],
        cnt  |-> [b \in {y \in DOMAIN Cap : w.cnt[y] # 0} |-> w.cnt[b]],
        ref  |-> [s \in {y \in GCable : w.ref[y] # 0} |-> w.ref[s]],
        held |-> [x \in {y \in All : w.held[y] # 0} |-> w.held[x]]]
